@@ -172,36 +172,38 @@ fn decide(case: &Case, info: &mut CaseInfo) -> Verdict {
         let _ = c.send(resp);
     }
 
-    // ---- shutdown is requested
-    run.stop.cancel();
-    let cancelled_at = Instant::now();
-
-    // ---- late clients and in-flight clients proceed concurrently (each on its own thread)
+    // ---- late clients wait (spinning) for the shutdown request, so that their connects follow cancel() within
+    // microseconds; then shutdown is requested; late clients and in-flight clients proceed concurrently
     let inflight_progress = case.inflight.clone();
-    let (late_served, results): (Option<String>, Vec<(usize, Result<(), String>, Option<Instant>)>) = std::thread::scope(|scope| {
+    let go = std::sync::atomic::AtomicBool::new(false);
+    let (late_served, results, cancelled_at): (Option<String>, Vec<(usize, Result<(), String>, Option<Instant>)>, Instant) = std::thread::scope(|scope| {
         let connect = &connect;
-        let late = scope.spawn(move || {
-            let mut late_served: Option<String> = None;
-            if case.late_gap_us > 0 {
-                let until = cancelled_at + Duration::from_micros(u64::from(case.late_gap_us));
-                while Instant::now() < until {
-                    std::hint::spin_loop();
-                }
-            }
-            let mut late_clients = Vec::new();
-            for _ in 0..case.late {
-                if let Ok(c) = connect(true) {
-                    late_clients.push(c);
-                }
-            }
-            for (i, c) in late_clients.iter_mut().enumerate() {
-                let r = c.status_exchange("late.example.org", Duration::from_millis(400));
-                if c.received > 0 || r.is_ok() {
-                    late_served = Some(format!("late client #{i} (connected after cancel() had returned, gap {} us) received {} bytes: {:?}", case.late_gap_us, c.received, r));
-                }
-            }
-            late_served
-        });
+        let go = &go;
+        let late_handles: Vec<_> = (0..case.late)
+            .map(|i| {
+                scope.spawn(move || {
+                    while !go.load(std::sync::atomic::Ordering::Acquire) {
+                        std::hint::spin_loop();
+                    }
+                    if case.late_gap_us > 0 {
+                        let until = Instant::now() + Duration::from_micros(u64::from(case.late_gap_us));
+                        while Instant::now() < until {
+                            std::hint::spin_loop();
+                        }
+                    }
+                    let mut c = connect(true).ok()?;
+                    let r = c.status_exchange("late.example.org", Duration::from_millis(400));
+                    if c.received > 0 || r.is_ok() {
+                        return Some(format!("late client #{i} (its connect() started after cancel() had returned, gap {} us) received {} bytes: {:?}", case.late_gap_us, c.received, r));
+                    }
+                    None
+                })
+            })
+            .collect();
+        std::thread::sleep(Duration::from_millis(2));
+        run.stop.cancel();
+        go.store(true, std::sync::atomic::Ordering::Release);
+        let cancelled_at = Instant::now();
         // the busy clients leave (they are not cooperating clients: they never finish their login)
         drop(busy_clients);
         let handles: Vec<_> = clients
@@ -261,7 +263,8 @@ fn decide(case: &Case, info: &mut CaseInfo) -> Verdict {
             })
             .collect();
         let results = handles.into_iter().map(|h| h.join().expect("client thread")).collect();
-        (late.join().expect("late thread"), results)
+        let late_served = late_handles.into_iter().filter_map(|h| h.join().expect("late thread")).next();
+        (late_served, results, cancelled_at)
     });
     let mut last_backend_due: Option<Instant> = None;
     let mut failure: Option<String> = None;
@@ -333,7 +336,7 @@ impl Check for C17 {
     }
     fn strategy(&self, _tier: Tier) -> BoxedStrategy<Case> {
         let progress = prop_oneof![2 => Just(Progress::JustAccepted), 2 => Just(Progress::MidStatus), 4 => Just(Progress::MidLogin), 6 => Just(Progress::WaitingBackend), 1 => (200u8..=255).prop_map(Progress::BeforeProxyHeader)];
-        (50u64..300, proptest::collection::vec(progress, 0..=8), 1u8..=3, prop_oneof![3 => Just(0u32), 2 => 1u32..300, 1 => 300u32..5000], prop_oneof![2 => Just(1u8), 1 => 2u8..=4], prop_oneof![1 => Just(0u8), 2 => 1u8..=6], prop::bool::weighted(0.4))
+        (50u64..300, proptest::collection::vec(progress, 0..=8), 1u8..=6, prop_oneof![3 => Just(0u32), 2 => 1u32..300, 1 => 300u32..5000], prop_oneof![2 => Just(1u8), 1 => 2u8..=4], prop_oneof![1 => Just(0u8), 2 => 1u8..=6], prop::bool::weighted(0.4))
             .prop_map(|(discovery_ms, mut inflight, late, late_gap_us, workers, busy, proxy)| {
                 // at most two clients with an outstanding header (each costs a second of real time)
                 let mut seen = 0;
